@@ -397,7 +397,7 @@ def rand_family(rng, n_classes=3, depth=2, inheritance=True, recursive=True):
             if recursive and rng.random() < 0.12:
                 ty = rng.choice([["opt", ["model", name]], ["list", ["model", name]], ["opt", ["list", ["model", name]]]])
             dflt = None
-            if rng.random() < 0.2:
+            if rng.random() < 0.2 and ('"%s"' % name) not in json.dumps(ty):  # a self-typed default never terminates
                 v = gen_json(rng, ty if ty[0] != "opt" else ty[1], fam + [cd], 1)
                 if v is not OMIT:
                     dflt = {"v": v}
